@@ -87,6 +87,10 @@ type Session struct {
 	SessionID string
 	Class     []byte
 
+	// tornDown is set by SessionTeardown.cleanup (under its mutex) so that a session
+	// that reaches cleanup twice is released and accounted once
+	tornDown bool
+
 	mu sync.RWMutex
 }
 
